@@ -110,6 +110,27 @@ impl BigInt {
     }
 //@ end
 
+//@ extract src/bigint.rs :: impl PartialOrd for BigInt :: fn partial_cmp props=C04,C19 label=bigint_partial_cmp
+    fn partial_cmp(&self, other: &BigInt) -> /*+*/(r: /*-*/Option<Ordering>/*+*/)/*-*/
+//+{
+        requires self.wfi(), other.wfi()
+        ensures r == Some(ord_of_int(self.iv(), other.iv()))
+//+}
+    {
+        Some(self.cmp(other))
+    }
+//@ end
+
+//@ extract src/bigint.rs :: impl Default for BigInt :: fn default props=C04,C19 label=bigint_default
+    fn default() -> /*+*/(r: /*-*/BigInt/*+*/)/*-*/
+//+{
+        ensures r.wfi(), r.iv() == 0
+//+}
+    {
+        Self::ZERO
+    }
+//@ end
+
 //@ extract src/bigint.rs :: impl PartialEq for BigInt :: fn eq rules=R0,R14 props=C04 label=bigint_eq
     fn eq(&self, other: &BigInt) -> /*+*/(r: /*-*/bool/*+*/)/*-*/
 //+{
